@@ -135,8 +135,48 @@ def setter_facts(db, f):
                                 if a_ is None:
                                     return None
                                 nat = max(nat, a_)
+                        # the same bytes produced through the cursor: stream.write / write_le / write_be of a scalar
+                        if mc["k"] == "CXXMemberCallExpr" and mc.get("crec") == "Tins::Memory::OutputMemoryStream" and \
+                                mc.get("cname") in ("write", "write_le", "write_be") and len(mc["c"]) == 2:
+                            tt = facts.ty(f, facts.strip(mc["c"][1]))
+                            while tt and tt.get("k") == "ref" and tt.get("to"):
+                                tt = tt["to"]
+                            a_ = scalar_natural(db, f, tt)
+                            if a_ is None:
+                                return None
+                            nat = max(nat, a_)
                     return fl["enumc"], fl["v"], ln, nat, "option(flag, %d, buffer)" % ln
     return None
+
+
+def setter_slots(db, f):
+    """[(offset, width)] of the scalars a buffer-building setter lays out (memcpy(buffer + off, &x, n) or consecutive
+    cursor writes), or None when the setter is not of that form / not readable"""
+    slots = []
+    soff = 0
+    for n in sorted(facts.fn_nodes(f), key=lambda x: (x.get("l") or 0, x["id"])):
+        if n["k"] == "CallExpr" and n.get("cname") == "memcpy":
+            src = facts.strip_all(n["c"][2])
+            if not (src["k"] == "UnaryOperator" and src.get("op") == "&"):
+                continue
+            ln = facts.cval(n["c"][3])
+            dst = facts.strip_all(n["c"][1])
+            off = 0
+            if dst["k"] == "BinaryOperator" and dst.get("op") == "+":
+                off = facts.cval(dst["c"][1])
+            if ln is None or off is None:
+                return None
+            slots.append((off, ln))
+        elif n["k"] == "CXXMemberCallExpr" and n.get("crec") == "Tins::Memory::OutputMemoryStream" and \
+                n.get("cname") in ("write", "write_le", "write_be") and len(n["c"]) == 2:
+            tt = facts.ty(f, facts.strip(n["c"][1]))
+            while tt and tt.get("k") == "ref" and tt.get("to"):
+                tt = tt["to"]
+            if not tt or tt.get("k") not in ("int", "bool", "enum"):
+                return None
+            slots.append((soff, tt["w"] // 8))
+            soff += tt["w"] // 8
+    return slots or None
 
 
 def getter_facts(db, f):
@@ -164,6 +204,21 @@ def getter_facts(db, f):
             if ln is None or off is None:
                 return None
             reads.append((off, ln, "memcpy(%d@%d)" % (ln, off)))
+    # the same reads through the cursor: skip(k) moves on, read<T>() / read_le<T>() / read_be<T>() reads sizeof(T) there
+    soff = 0
+    for n in sorted([x for x in facts.fn_nodes(f) if x["k"] == "CXXMemberCallExpr" and x.get("crec") == "Tins::Memory::InputMemoryStream"],
+                    key=lambda x: (x.get("l") or 0, x["id"])):
+        if n.get("cname") == "skip" and len(n["c"]) == 2:
+            k_ = facts.cval(n["c"][1])
+            if k_ is None:
+                return None
+            soff += k_
+        elif n.get("cname") in ("read", "read_le", "read_be") and len(n["c"]) == 1:
+            t = facts.ty(f, n)
+            if not t or t.get("k") not in ("int", "bool", "enum"):
+                return None
+            reads.append((soff, t["w"] // 8, "%s<%s>@%d" % (n["cname"], t.get("s"), soff)))
+            soff += t["w"] // 8
     if not reads:
         return None
     return fl[0], fl[1], reads
@@ -224,6 +279,15 @@ def r1(db, rep, rows, g):
                               "%s() reads %s but %s() writes %s" % (gn, gflag.split("::")[-1], nm, short))
                 continue
             bad = [r for r in reads if r[0] + r[1] > size or (len(reads) == 1 and gn == nm and r[1] != size)]
+            slots = setter_slots(db, f) if how.startswith("option(") else None
+            if not bad and slots and len(slots) > 1:
+                # a field made of several scalars: each getter decodes one of the scalars the setter laid out
+                bad = [r for r in reads if (r[0], r[1]) not in slots]
+                if bad:
+                    rep.violation("R1-field-table", keyg, facts.loc(gs[0]),
+                                  "%s() decodes %s of %s, but %s() lays the field out as %s: the getter straddles / misses the value"
+                                  % (gn, bad[0][2], short, nm, slots))
+                    continue
             if bad:
                 rep.violation("R1-field-table", keyg, facts.loc(gs[0]),
                               "%s() decodes %s of %s, whose table size is %d" % (gn, bad[0][2], short, size))
@@ -430,32 +494,53 @@ def r4(db, rep):
     g = cfg.FnCFG(f)
     inserts = [n for n in facts.fn_nodes(f) if n["k"] == "CXXMemberCallExpr" and n.get("cname") == "insert" and
                "data_ptr" in facts.expr_str(n)]
-    ors = [n for n in facts.fn_nodes(f) if n["k"] == "CompoundAssignOperator" and n.get("op") == "|=" and
-           "option()" in facts.expr_str(n["c"][1]).replace("option.option", "option").replace("option ()", "option()")
-           or (n["k"] == "CompoundAssignOperator" and n.get("op") == "|=" and
-               any(x["k"] == "CXXMemberCallExpr" and x.get("cname") == "option" for x in facts.walk(n["c"][1])))]
-    stores = [n for n in facts.fn_nodes(f) if n["k"] == "CallExpr" and n.get("cname") == "memcpy" and
-              "&flags" in facts.expr_str(n["c"][2]).replace(" ", "") and "buffer_" in facts.expr_str(n["c"][1])]
+    # the two effects, written here or in a helper that always performs them (facts.lifted_sites):
+    #   flags |= host_to_le(<the option's identifier>)      and      memcpy(<start of buffer_>, &flags, ...)
+    def is_or(fn, n, txt):
+        return n["k"] == "CompoundAssignOperator" and n.get("op") == "|=" and "option()" in txt(n["c"][1]).replace("option.option", "option") \
+            and any(x["k"] == "CallExpr" and x.get("cname") == "host_to_le" for x in facts.walk(n["c"][1]))
+
+    def is_or_any(fn, n, txt):
+        return n["k"] == "CompoundAssignOperator" and n.get("op") == "|=" and "option()" in txt(n["c"][1]).replace("option.option", "option")
+
+    def is_store(fn, n, txt):
+        return n["k"] == "CallExpr" and n.get("cname") == "memcpy" and "&flags" in txt(n["c"][2]).replace(" ", "") and "buffer_" in txt(n["c"][1])
+    ors = facts.lifted_sites(db, f, is_or)
+    ors_any = facts.lifted_sites(db, f, is_or_any)
+    stores = facts.lifted_sites(db, f, is_store)
     key = "write_option:insert-records-bit"
     if not inserts:
         rep.analysis_broken("write_option: insertion of the option data not found")
         return
-    if not ors or not stores:
+    if not ors_any or not stores:
         rep.violation("R4-present", key, facts.loc(f), "write_option does not OR the option's bit into the present word and store it back")
     else:
         ins = inserts[0]
-        # every path from the insertion to the exit passes the |= and the store
-        p_ins, p_or, p_st = g.pos(ins), g.pos(ors[0]), g.pos(stores[0])
-        ok1 = g.reaches_exit_avoiding(p_ins, [p_or]) is None
-        ok2 = g.reaches_exit_avoiding(p_or, [p_st]) is None
-        le = any(x["k"] == "CallExpr" and x.get("cname") == "host_to_le" for x in facts.walk(ors[0]["c"][1]))
+        # every path from the insertion to the exit passes the |= and the store (for a helper: the call that performs both)
+        p_ins = g.pos(ins)
+        p_or = [g.pos(x[0]) for x in ors_any]
+        p_st = [g.pos(x[0]) for x in stores]
+        ok1 = g.reaches_exit_avoiding(p_ins, p_or) is None
+        ok2 = all(g.reaches_exit_avoiding(p_, p_st, inclusive=(p_ in p_st and False)) is None or p_ in p_st for p_ in p_or)
+        if ok2:
+            # inside one helper the order OR -> store is the helper's own: checked on its CFG
+            for (c_, m_, h_) in ors_any:
+                if h_ is not f:
+                    gh = cfg.FnCFG(h_)
+                    st_in = [y[1] for y in stores if y[2] is h_ and y[0] is c_]
+                    if not st_in or gh.reaches_exit_avoiding(gh.pos(m_), [gh.pos(y) for y in st_in]) is not None:
+                        ok2 = False
+        le = bool(ors)
         if ok1 and ok2 and le:
-            rep.ok("R4-present", key, facts.loc(f, ors[0]), "insert -> flags |= host_to_le(option.option()) -> store, on every path")
+            rep.ok("R4-present", key, facts.loc(f, ors[0][0]), "insert -> flags |= host_to_le(option.option()) -> store, on every path")
         else:
             rep.violation("R4-present", key, facts.loc(f, ins), "a path inserts the field without recording its bit in the present word")
     # overwrite path only when the parser's current field equals the option
     key = "write_option:overwrite-guard"
-    ow = [n for n in facts.fn_nodes(f) if n["k"] == "CallExpr" and n.get("cname") == "memcpy" and "current_option_ptr" in facts.expr_str(n["c"][1])]
+    # memcpy(dst, ...) / std::copy(first, last, dst) with dst = the parser's current option (named locals read through)
+    ow = [n for n in facts.fn_nodes(f) if n["k"] == "CallExpr" and (
+          (n.get("cname") in ("memcpy", "memmove") and "current_option_ptr" in facts.expr_str(facts.inline_locals(f, n["c"][1]))) or
+          (n.get("cname") in ("copy", "copy_n") and len(n["c"]) >= 4 and "current_option_ptr" in facts.expr_str(facts.inline_locals(f, n["c"][3]))))]
     if not ow:
         rep.violation("R4-present", key, facts.loc(f), "no in-place overwrite of a field that is already present: a repeated setter would insert a second copy")
         return
